@@ -15,9 +15,9 @@ def _csum(b: bytes) -> int:
 
 
 def footer(size, disk_type, data_offset, *, original_size=None, features=2, uid=b"\x33" * 16, cookie=b"conectix",
-           timestamp=0x2A2A2A2A, geometry=0x03FF103F):
+           timestamp=0x2A2A2A2A, geometry=0x03FF103F, creator_app=b"vps ", creator_os=b"Wi2k"):
     osz = size if original_size is None else original_size
-    raw = FOOTER.pack(cookie, features, 0x00010000, data_offset, timestamp, 0x76707320, 0x00050003, 0x5769326B,
+    raw = FOOTER.pack(cookie, features, 0x00010000, data_offset, timestamp, int.from_bytes(creator_app, "big"), 0x00050003, int.from_bytes(creator_os, "big"),
                       osz, size, geometry, disk_type, 0, uid, 0, bytes(427))
     return raw[:64] + struct.pack(">I", _csum(raw)) + raw[68:]
 
